@@ -22,10 +22,10 @@ const spmSep = "▁"
 // tok is one tokenizer instance; never shared between goroutines.
 type tok struct {
 	*tokSpec
-	tp   model.TextProcessor
-	memo map[string]*verdict // verdicts of short sequences (core search)
-	conf map[string]*confirmed
-	ctl  map[int32]bool // ids of control tokens
+	tp    model.TextProcessor
+	memo  map[string]*verdict // verdicts of short sequences (core search)
+	conf  map[string]*confirmed
+	ctl   map[int32]bool      // ids of control tokens
 	found map[string]*finding // violations seen since the last flush, by signature
 
 	nEval, nNontrivial, nAmbiguous int64 // flushed into the evidence per work item
